@@ -378,16 +378,23 @@ impl MetadataClient for LocalMetadataClient {
         metadata: &crate::sharding::ShardMetadata,
         expected_generation: u64,
     ) -> Result<()> {
-        // Check generation
-        if let Some(current) = self.shard_metadata.get(shard_id) {
-            if current.generation != expected_generation {
-                return Err(crate::Error::StaleGeneration {
-                    expected: expected_generation,
-                    actual: current.generation,
-                });
+        // Check generation. The entry holds the map's lock until it is written below, so the
+        // check and the insert are one atomic step (two racing updates cannot both pass the check).
+        let entry = self.shard_metadata.entry(shard_id.to_string());
+        match &entry {
+            dashmap::mapref::entry::Entry::Occupied(current) => {
+                if current.get().generation != expected_generation {
+                    return Err(crate::Error::StaleGeneration {
+                        expected: expected_generation,
+                        actual: current.get().generation,
+                    });
+                }
             }
-        } else if expected_generation != 0 {
-            return Err(crate::Error::ShardNotFound(shard_id.to_string()));
+            dashmap::mapref::entry::Entry::Vacant(_) => {
+                if expected_generation != 0 {
+                    return Err(crate::Error::ShardNotFound(shard_id.to_string()));
+                }
+            }
         }
 
         #[cfg(feature = "verif-hooks")]
@@ -396,8 +403,7 @@ impl MetadataClient for LocalMetadataClient {
         // Update with incremented generation
         let mut new_metadata = metadata.clone();
         new_metadata.generation = expected_generation + 1;
-        self.shard_metadata
-            .insert(shard_id.to_string(), new_metadata);
+        entry.insert(new_metadata);
 
         Ok(())
     }
